@@ -247,6 +247,26 @@ class InstructionsGraph:
             if approval:
                 current_cycle.append(ind2)
 
+    def _add_constraint_dependency(self, cycles_list, apply_constraint):
+        """
+        Add a dependency arrow between every two instructions
+        that are scheduled in different cycles and
+        cannot be executed in parallel due to the hardware constraints.
+        The list-schedule algorithm only records the conflicts among
+        instructions that are candidates for the same cycle.
+        Without the remaining arrows, an instruction could start while
+        an instruction of an earlier cycle with a longer duration
+        is still occupying the same qubit.
+        """
+        scheduled = []
+        for cycle in cycles_list:
+            for ind2 in cycle:
+                for ind1 in scheduled:
+                    if not apply_constraint(ind2, ind1, self.nodes):
+                        self.nodes[ind1].successors.add(ind2)
+                        self.nodes[ind2].predecessors.add(ind1)
+            scheduled.extend(cycle)
+
     def compute_distance(self, cycles_list):
         """
         Compute the longest distance of each node
@@ -517,6 +537,9 @@ class Scheduler:
         # and compute the longest distance to the start node again.
         # The longest distance to the start node determines
         # the start time of each pulse.
+        instructions_graph._add_constraint_dependency(
+            cycles_list, self.apply_constraint
+        )
         instructions_graph.compute_distance(cycles_list=cycles_list)
         if self.method == "ALAP":
             instructions_graph.reverse_graph()
